@@ -1,6 +1,8 @@
 package corr
 
 import (
+	"fmt"
+	"math"
 	"reflect"
 	"strconv"
 
@@ -49,4 +51,91 @@ func OpCmp(o *Out, e *TypeEntry, v reflect.Value, f Form, path []string, op int,
 	}
 	vid := o.DeclareVal(e, vtok)
 	o.Op("C " + e.Tid + " " + string(f) + " " + vid + " | " + PathToks(path) + " | " + strconv.Itoa(op) + " " + SegTok(right) + " | " + mut + " " + out)
+}
+
+// setFloatAt stores f into the non-pointer float element that path denotes in the settable value v (struct fields
+// by name, slice elements by decimal index, map entries by the %v text of integer / string / bool keys, through
+// non-nil pointers on the way); false when the path does not end on such an element.
+func setFloatAt(v reflect.Value, path []string, f float64) bool {
+	if len(path) == 0 {
+		if (v.Kind() == reflect.Float32 || v.Kind() == reflect.Float64) && v.CanSet() {
+			v.SetFloat(f)
+			return true
+		}
+		return false
+	}
+	for v.Kind() == reflect.Ptr {
+		if v.IsNil() {
+			return false
+		}
+		v = v.Elem()
+	}
+	switch v.Kind() {
+	case reflect.Struct:
+		fv := v.FieldByName(path[0])
+		if !fv.IsValid() {
+			return false
+		}
+		return setFloatAt(fv, path[1:], f)
+	case reflect.Slice:
+		idx, err := strconv.Atoi(path[0])
+		if err != nil || idx < 0 || idx >= v.Len() {
+			return false
+		}
+		return setFloatAt(v.Index(idx), path[1:], f)
+	case reflect.Map:
+		switch v.Type().Key().Kind() {
+		case reflect.Float32, reflect.Float64, reflect.Ptr, reflect.Slice, reflect.Array, reflect.Struct, reflect.Interface:
+			return false
+		}
+		for _, k := range v.MapKeys() {
+			if fmt.Sprintf("%v", k.Interface()) != path[0] {
+				continue
+			}
+			c := reflect.New(v.Type().Elem()).Elem()
+			c.Set(v.MapIndex(k))
+			if setFloatAt(c, path[1:], f) {
+				v.SetMapIndex(k, c)
+				return true
+			}
+			return false
+		}
+	}
+	return false
+}
+
+// OpCmpSpecial emits `FC` records: Compare on the non-pointer float element at path, holding NaN, +Inf or -Inf, for
+// every operator and a handful of operand texts (class of the operand from the real ParseFloat). Nothing is
+// emitted when the path does not end on such an element.
+func OpCmpSpecial(o *Out, e *TypeEntry, v reflect.Value, path []string) {
+	for _, l := range []float64{math.NaN(), math.Inf(1), math.Inf(-1)} {
+		p := reflect.New(e.Type)
+		p.Elem().Set(DeepCopy(v))
+		if !setFloatAt(p.Elem(), path, l) {
+			return
+		}
+		for _, right := range []string{"NaN", "Inf", "-Inf", "1.5", "x"} {
+			rc := "err"
+			if rv, err := strconv.ParseFloat(right, 64); err == nil {
+				rc = fclass(rv)
+			}
+			for op := 0; op <= 7; op++ {
+				r0, s0 := callCmp(e.Ins, p.Interface(), op, right, false, path)
+				r1, s1 := callCmp(e.Ins, p.Interface(), op, right, true, path)
+				out := "nondet"
+				switch {
+				case s0 == "panic" || s1 == "panic":
+					out = "panic"
+				case s0 == "err" && s1 == "err":
+					out = "err"
+				case s0 == "ok" && s1 == "ok" && !r0 && r1:
+					out = "untouched"
+				case s0 == "ok" && s1 == "ok" && r0 == r1:
+					out = "set" + b01(r0)
+				}
+				o.Op("FC " + e.Tid + " | " + strconv.Itoa(op) + " " + fclass(l) + " " + rc + " | " + out)
+				o.Count("special-float-element")
+			}
+		}
+	}
 }
